@@ -11,6 +11,7 @@ import (
 	"testing"
 	"time"
 
+	"github.com/hedzr/is"
 	"github.com/hedzr/logg/slog"
 	"github.com/hedzr/logg/slog/verifharness/vlib"
 	"pgregory.net/rapid"
@@ -245,6 +246,21 @@ func TestHandler(t *testing.T) {
 			}
 			if rec > 0 {
 				labels["several-records-one-handler"] = true
+				if rapid.IntRange(0, 2).Draw(t, "debugModeChangesBetweenRecords") == 0 {
+					// the handler has answered Enabled and handled records: the process-wide debug mode changes now
+					switch {
+					case debug:
+						is.SetDebugMode(false)
+						debug = false
+					case rapid.Bool().Draw(t, "throughAnotherLoggersSetLevel"):
+						slog.New("elsewhere").SetLevel(slog.DebugLevel) // documented side effect: debug mode on
+						debug = true
+					default:
+						is.SetDebugMode(true)
+						debug = true
+					}
+					labels["debug-mode-changed-between-records"] = true
+				}
 			}
 			level := logslog.Level(rapid.OneOf(rapid.IntRange(-20, 20), rapid.SampledFrom([]int{-4, 0, 4, 8})).Draw(t, "slogLevel"))
 			msg := rapid.OneOf(rapid.StringMatching(`[a-z]{1,8}( [a-z]{1,8}){0,3}`), vlib.GenAnyString()).Draw(t, "msg")
